@@ -260,6 +260,7 @@ def run(pid, tier, seed, oracle_names, title, feats=None, check_c07=False, extra
         chk.proofs("Order")     # order and direct adjacency of a unit's stops are kept by order-respecting moves (and by the generators' moves)
     if pid in ("C03", "C05", "C07", "C08"):
         chk.proofs("Units")     # nested units: conservative extension, defect witnesses N1/N2/N4/N7, units-move rollback
+        chk.proofs("GroupInv")  # positive counterpart: with groups and no initial stops the collections/scores/output stay consistent under succeeding group-level operations
     nh, ns = (150, 25) if tier == "quick" else (4000, 600)
     nops = 30 if tier == "quick" else 60
     size = "small" if tier == "quick" else "medium"
